@@ -204,4 +204,4 @@ def detuple(x):
 
 
 _TAGS = set(['f', 'named', 'lit', 'int', 'none', 'NR', 'NF', 'bNR', 'NU', 'aNR', 'cat', 'arith', 'cmp', 'and', 'or', 'not', 'like', 'len', 'upper',
-             'split', 'list', 'tuple', 'toint', 'tofloat', 'bmax', 'bmin', 'bminlist', 'bsumlist', 'agg', 'star', 'unnest', 'alias', 'call', 'paren', 'raw', 'TOP', 'LIMIT'])
+             'split', 'list', 'tuple', 'toint', 'tofloat', 'bmax', 'bmin', 'bminlist', 'bsumlist', 'bmaxgen', 'bminmap', 'bsumgen', 'agg', 'star', 'unnest', 'alias', 'call', 'paren', 'raw', 'TOP', 'LIMIT'])
